@@ -3,6 +3,7 @@
    used to state the format/parse inverse for the canonical complete format. *)
 From Coq Require Import List NArith ZArith Bool Lia.
 Import ListNotations.
+From GMS Require Import Codec.C31Date.
 Open Scope Z_scope.
 
 Definition digit (d : Z) : N := Z.to_N (48 + d).
@@ -25,6 +26,29 @@ Record moment := { yr : Z; mo : Z; dy : Z; hh : Z; mi : Z; ss : Z; us : Z }.
 Definition hour12 (h : Z) : Z := let x := h mod 12 in if x =? 0 then 12 else x.
 Definition ampm (h : Z) : list N := if 12 <=? h then [80; 77]%N else [65; 77]%N.   (* "PM" / "AM" *)
 
+(* English names (time.Month.String, time.Weekday.String) as byte strings *)
+Definition month_name (m : Z) : list N :=
+  match Z.to_N m with
+  | 1 => [74;97;110;117;97;114;121] | 2 => [70;101;98;114;117;97;114;121] | 3 => [77;97;114;99;104]
+  | 4 => [65;112;114;105;108] | 5 => [77;97;121] | 6 => [74;117;110;101] | 7 => [74;117;108;121]
+  | 8 => [65;117;103;117;115;116] | 9 => [83;101;112;116;101;109;98;101;114] | 10 => [79;99;116;111;98;101;114]
+  | 11 => [78;111;118;101;109;98;101;114] | 12 => [68;101;99;101;109;98;101;114] | _ => []
+  end%N.
+Definition weekday_name (w : Z) : list N :=
+  match Z.to_N w with
+  | 0 => [83;117;110;100;97;121] | 1 => [77;111;110;100;97;121] | 2 => [84;117;101;115;100;97;121]
+  | 3 => [87;101;100;110;101;115;100;97;121] | 4 => [84;104;117;114;115;100;97;121] | 5 => [70;114;105;100;97;121]
+  | _ => [83;97;116;117;114;100;97;121]
+  end%N.
+(* 1970-01-01 was a Thursday; 0 = Sunday *)
+Definition weekday_of (y m d : Z) : Z := (days_from_civil (y, m, d) + 4) mod 7.
+Definition day_of_year (y m d : Z) : Z := days_from_civil (y, m, d) - days_from_civil (y, 1, 1) + 1.
+(* dayWithSuffix *)
+Definition day_suffix (d : Z) : list N :=
+  if (d <? 4) || (20 <? d) then
+    (if d mod 10 =? 1 then [115;116]%N else if d mod 10 =? 2 then [110;100]%N else if d mod 10 =? 3 then [114;100]%N else [116;104]%N)
+  else [116;104]%N.
+
 (* one specifier; None = not modelled *)
 Definition render_spec (c : N) (t : moment) : option (list N) :=
   match c with
@@ -45,6 +69,12 @@ Definition render_spec (c : N) (t : moment) : option (list N) :=
   | 84%N  => Some (padw 2 (hh t) ++ 58%N :: padw 2 (mi t) ++ 58%N :: padw 2 (ss t))      (* %T *)
   | 114%N => Some (padw 2 (hour12 (hh t)) ++ 58%N :: padw 2 (mi t) ++ 58%N :: padw 2 (ss t) ++ 32%N :: ampm (hh t))  (* %r *)
   | 37%N  => Some [37%N]                               (* %% *)
+  | 98%N  => Some (firstn 3 (month_name (mo t)))       (* %b *)
+  | 77%N  => Some (month_name (mo t))                  (* %M *)
+  | 68%N  => Some (dec (dy t) ++ day_suffix (dy t))    (* %D *)
+  | 106%N => Some (padw 3 (day_of_year (yr t) (mo t) (dy t)))          (* %j *)
+  | 97%N  => Some (firstn 3 (weekday_name (weekday_of (yr t) (mo t) (dy t))))   (* %a *)
+  | 87%N  => Some (weekday_name (weekday_of (yr t) (mo t) (dy t)))     (* %W *)
   | _ => None
   end.
 
